@@ -719,19 +719,39 @@ func (e *Exec) floatAddSub(s *State, op token.Token, x, y *T) *T {
 	}
 	exact := mkArith(o, x, y)
 	if exact.isConst() {
-		f, ok := exact.Num.Float64()
-		if ok {
-			_ = f
-			return exact
+		// concrete: round to nearest float64 exactly as the hardware does
+		f, _ := exact.Num.Float64()
+		r := new(big.Rat)
+		if r.SetFloat64(f) == nil {
+			unsupported("float overflow in constant arithmetic")
 		}
+		return mkReal(r)
 	}
-	isInt := func(t *T) *T { return mkEq(toReal(floorInt(t)), t) }
+	isInt := func(t *T) *T { return mkBool(isIntegral(t)) } // syntactic; non-integral operands are havocked
+	abs := func(t *T) *T { return mkIte(mkCmp(">=", t, mkReal(ratInt(0))), t, mkArith("-", mkReal(ratInt(0)), t)) }
 	p53 := mkReal(new(big.Rat).SetInt(pow2(53)))
-	n53 := mkReal(new(big.Rat).SetInt(new(big.Int).Neg(pow2(53))))
-	cond := mkAnd(isInt(x), isInt(y), mkCmp("<=", exact, p53), mkCmp(">=", exact, n53))
-	hv := e.fresh("fpround", SReal)
-	s.Trace = append(s.Trace, "float "+o+" exact only for integral operands with |result| <= 2^53; otherwise havocked")
-	return mkIte(cond, exact, hv)
+	p54 := mkReal(new(big.Rat).SetInt(pow2(54)))
+	// (1) integral operands, |result| <= 2^53: exact.
+	c1 := mkAnd(isInt(x), isInt(y), mkCmp("<=", abs(exact), p53))
+	// the havoc value: unconstrained, except that the float64 sum of two integral
+	// floats is itself integral (exact below 2^52, all floats integral above)
+	var hv *T
+	if isIntegral(x) && isIntegral(y) {
+		hv = toReal(e.fresh("fpround", SInt))
+	} else {
+		hv = e.fresh("fpround", SReal)
+	}
+	res := hv
+	// (1b) |x| = 2^53 moving outward by one: a tie, round-half-to-even gives x.
+	// (2) |x| >= 2^54 and |y| <= 1: ulp(x) >= 4, so x +/- y rounds back to x.
+	// Integers strictly between 2^53 and 2^54 (+/-1 is a tie whose outcome depends
+	// on the significand's parity) are havocked: contracts exclude that zone by a
+	// stated bound.
+	if y.isConst() && new(big.Rat).Abs(y.Num).Cmp(ratInt(1)) <= 0 {
+		res = mkIte(mkOr(mkCmp(">=", abs(x), p54), mkAnd(mkEq(abs(x), p53), mkCmp(">", abs(exact), p53))), x, hv)
+	}
+	s.Trace = append(s.Trace, "float "+o+": exact for integral operands with |result| <= 2^53; x+/-1 = x for |x| = 2^53 (outward) and |x| >= 2^54; otherwise havocked (sound over-approximation)")
+	return mkIte(c1, exact, res)
 }
 
 func (e *Exec) convert(s *State, i *ssa.Convert) Val {
@@ -750,7 +770,7 @@ func (e *Exec) convert(s *State, i *ssa.Convert) Val {
 			if tb.Kind() != types.Int64 && tb.Kind() != types.Int {
 				unsupported("float to %s conversion", tb)
 			}
-			return truncToInt(t)
+			return e.num(s).trunc64(t)
 		case isT && fb.Info()&types.IsInteger != 0 && tb.Info()&types.IsInteger != 0:
 			lo, hi, _ := intRange(i.Type())
 			flo, fhi, _ := intRange(i.X.Type())
@@ -792,4 +812,8 @@ func (e *Exec) fnName() string {
 		return e.fnUnder.Name()
 	}
 	return "?"
+}
+
+func (e *Exec) num(s *State) numCtx {
+	return numCtx{floorFn: func(a *T) *T { return freshIntDef(a, func(d *T) { s.assume(d) }) }}
 }
